@@ -12,7 +12,10 @@ CONFLICT = [('ph', [P('p', ['0000', '0100', '0000', '0000'], [[S('eq:0')], [S('e
 TWO = [('ph', [P('p', ['0000', '0000', '0000'], [[S('eq:0')], [S('eq:1')], [S('eq:2')]], halt=[S('eq:9')]),
                P('q', ['0000', '0001', '1000'], [[S('eq:1')], [S('eq:2')], [S('eq:3')]])])]
 LOOPY = [('ph', [P('p', ['0000', '0100', '0100', '0000'], [[S('eq:0')], [S('eq:1')], [S('eq:2')], [S('eq:3')]], pre=[S('ne:8')])])]
-FAMILIES = [CONFLICT, TWO, LOOPY]
+# a one-block pattern completes on the event that starts it: the run is never stored, only remembered and announced
+ONEBLOCK = [('ph', [P('o', ['0000'], [[S('eq:4')]]),
+                    P('p', ['0000', '0000', '0000'], [[S('eq:0')], [S('eq:1')], [S('eq:2')]], halt=[S('eq:9')])])]
+FAMILIES = [CONFLICT, TWO, LOOPY, ONEBLOCK]
 DATA = [0, 0, 1, 1, 2, 2, 3, 3, 9, 4]
 
 
@@ -76,6 +79,18 @@ def merged_backlog_family():
             yield {'names': ['A', 'B'], 'phens': CONFLICT, 'cache': 1000, 'ops': ops}
             ops3 = [o for o in ops if o != 'heal'] + ['pass A', 'del A C', 'del A C', 'heal']
             yield {'names': ['A', 'B', 'C'], 'phens': CONFLICT, 'cache': 1000, 'ops': ops3}
+
+
+def instant_completion_family():
+    """a run that completes on its first event (one-block pattern) is announced, remembered by the peer, and later comes
+    back to its originator inside a full snapshot (the peer was out of contact for the resync period): nobody reports it twice."""
+    first = ['pass A', 'pass B', 'del A B', 'del B A', 'pass A', 'pass B', 'del A B', 'del B A']
+    for names in (['A', 'B'], ['A', 'B', 'C']):
+        for extra in ([], ['in A 0'], ['in B 4']):
+            for wait in (9, 31):
+                ops = list(first) + ['in A 4', 'pass A', 'del A B'] + extra + ['sync', f'tick {wait}', 'pass B', 'del B A', 'del B A',
+                                                                           'pass A', 'del A B', 'del A B', 'heal']
+                yield {'names': names, 'phens': ONEBLOCK, 'cache': 1000, 'periods': dict(SMALL_PERIODS), 'ops': ops}
 
 
 def fault_scenario(rng, small=None):
